@@ -171,6 +171,15 @@ func (m *stressMon) onJob(ev *Event) {
 	if ev.Type == Added {
 		if _, ok := j.Annotations[AnnScheduleTime]; ok && isCtrl(ev.Actor) {
 			m.inc("scheduled_job_creates")
+			ann := j.Annotations[AnnScheduleTime]
+			if !strings.HasSuffix(j.Name, "-"+ann) {
+				m.fail("C02", "name-annotation-mismatch", "scheduled Job %s records schedule time %s", j.Name, ann)
+			}
+			for _, o := range j.OwnerReferences {
+				if o.Controller != nil && *o.Controller && j.Labels[LabelJCUID] != string(o.UID) {
+					m.fail("C02", "label-owner-mismatch", "scheduled Job %s labelled with JobConfig uid %q but owned by %q", j.Name, j.Labels[LabelJCUID], o.UID)
+				}
+			}
 			for _, o := range m.api.peek(KJob) {
 				x := o.(*execution.Job)
 				if x.UID != j.UID && x.Namespace == j.Namespace && x.Labels[LabelJCUID] == j.Labels[LabelJCUID] && x.Annotations[AnnScheduleTime] == j.Annotations[AnnScheduleTime] {
@@ -362,6 +371,10 @@ func RunStress(opt StressOptions) *StressResult {
 			Spec: execution.JobConfigSpec{Concurrency: execution.ConcurrencySpec{Policy: pol, MaxConcurrency: pointer.Int64(int64(1 + i%3))},
 				Schedule: &execution.ScheduleSpec{Cron: &execution.CronSchedule{Expression: []string{"* * * * * * *", "*/2 * * * * * *"}[i%2]}},
 				Template: execution.JobTemplateSpec{Spec: execution.JobTemplate{MaxAttempts: pointer.Int64(int64(1 + i%2)), TaskTemplate: PodTemplate()}}}}
+		if i%2 == 0 {
+			jcfg.Spec.Template.Annotations = map[string]string{"note": "from-template"}
+			jcfg.Spec.Template.Labels = map[string]string{"team": "a"}
+		}
 		if i%4 == 3 {
 			jcfg.Spec.Template.Spec.Parallelism = &execution.ParallelismSpec{WithCount: pointer.Int64(2)}
 		}
